@@ -1,0 +1,100 @@
+//go:build verif
+
+// Contracts for package packet, checked by /verif/govc (comment-only file; it declares nothing).
+// Field layouts are written from RFC 791, RFC 8200, RFC 793, RFC 768, RFC 792 and IEEE 802.3/802.1Q.
+package packet
+
+//@ globalinv errUnknownEtherType != nil && errUnknownHeaderProtocol != nil && errShortEthernetHeaderLength != nil
+//@ globalinv errShortIPv4HeaderLength != nil && errShortIPv6HeaderLength != nil && errShortEthernetLength != nil && errUnknownTransportLayer != nil && errUnknownL3Protocol != nil
+//@ globalinv errShortTCPHeaderLength != nil && errShortUDPHeaderLength != nil && errICMPHLenTooSHort != nil
+
+//@ uninterp macText(b0 mathint, b1 mathint, b2 mathint, b3 mathint, b4 mathint, b5 mathint) string
+//@ uninterp ipText(ip net.IP) string
+
+//@ pred ipv4At(h IPv4Header, d []byte) = h.Version == d[0] / 16 && h.TOS == d[1] && h.TotalLen == d[2]*256 + d[3] && h.ID == d[4]*256 + d[5]
+//@     && h.Flags == d[6] / 32 && h.FragOff == (d[6] % 32)*256 + d[7] && h.TTL == d[8] && h.Protocol == d[9] && h.Checksum == d[10]*256 + d[11]
+//@     && h.Src == ipText(d[12:16]) && h.Dst == ipText(d[16:20])
+//@ pred ipv6At(h IPv6Header, d []byte) = h.Version == d[0] / 16 && h.TrafficClass == (d[0] % 16)*16 + d[1] / 16
+//@     && h.FlowLabel == (d[1] % 16)*65536 + d[2]*256 + d[3] && h.PayloadLen == d[4]*256 + d[5] && h.NextHeader == d[6] && h.HopLimit == d[7]
+//@     && h.Src == ipText(d[8:24]) && h.Dst == ipText(d[24:40])
+//@ pred tcpAt(h TCPHeader, b []byte) = h.SrcPort == b[0]*256 + b[1] && h.DstPort == b[2]*256 + b[3] && h.DataOffset == b[12] / 16 && h.Reserved == 0 && h.Flags == (b[12]*256 + b[13]) % 512
+//@ pred udpAt(h UDPHeader, b []byte) = h.SrcPort == b[0]*256 + b[1] && h.DstPort == b[2]*256 + b[3]
+
+//@ func NewPacket
+
+//@ func decodeTCP
+//@   ensures len(b) < 20 <==> err != nil
+//@   ensures err == nil ==> tcpAt(result, b)
+
+//@ func decodeUDP
+//@   ensures len(b) < 8 <==> err != nil
+//@   ensures err == nil ==> udpAt(result, b)
+
+//@ func decodeICMP
+//@   ensures len(b) < 5 <==> err != nil
+//@   ensures err == nil ==> result.Type == b[0] && result.Code == b[1] && sameview(result.RestHeader, b[4:])
+
+//@ func decodeIEEE802
+//@   ensures len(b) < 14 <==> err != nil
+//@   ensures err == nil ==> result.EtherType == b[12]*256 + b[13] && result.Vlan == 0
+//@   ensures err == nil && result.EtherType != 33024 ==> result.DstMAC == macText(b[0], b[1], b[2], b[3], b[4], b[5]) && result.SrcMAC == macText(b[6], b[7], b[8], b[9], b[10], b[11])
+
+//@ func (*Packet).decodeIPv4Header
+//@   ensures len(old(p.data)) < 20 <==> err != nil
+//@   ensures err == nil ==> isboxed(p.L3, IPv4Header) && ipv4At(unbox(p.L3, IPv4Header), old(p.data)) && p.data == old(p.data)[20:]
+//@   ensures err != nil ==> p.data == old(p.data) && p.L3 == old(p.L3)
+//@   ensures p.L2 == old(p.L2) && p.L4 == old(p.L4)
+//@   modifies p.L3, p.data
+
+//@ func (*Packet).decodeIPv6Header
+//@   ensures len(old(p.data)) < 40 <==> err != nil
+//@   ensures err == nil ==> isboxed(p.L3, IPv6Header) && ipv6At(unbox(p.L3, IPv6Header), old(p.data)) && p.data == old(p.data)[40:]
+//@   ensures err != nil ==> p.data == old(p.data) && p.L3 == old(p.L3)
+//@   ensures p.L2 == old(p.L2) && p.L4 == old(p.L4)
+//@   modifies p.L3, p.data
+
+//@ spec l4proto(p Packet) mathint = isboxed(p.L3, IPv4Header) ? unbox(p.L3, IPv4Header).Protocol : (isboxed(p.L3, IPv6Header) ? unbox(p.L3, IPv6Header).NextHeader : 0 - 1)
+
+//@ func (*Packet).decodeNextLayer
+//@   ensures p.L2 == old(p.L2) && p.L3 == old(p.L3)
+//@   ensures (l4proto(old(p)) == 1 || l4proto(old(p)) == 58) && len(old(p.data)) >= 5 ==> err == nil && isboxed(p.L4, ICMP)
+//@       && unbox(p.L4, ICMP).Type == old(p.data)[0] && unbox(p.L4, ICMP).Code == old(p.data)[1] && sameview(unbox(p.L4, ICMP).RestHeader, old(p.data)[4:]) && p.data == old(p.data)[4:]
+//@   ensures l4proto(old(p)) == 6 && len(old(p.data)) >= 20 ==> err == nil && isboxed(p.L4, TCPHeader) && tcpAt(unbox(p.L4, TCPHeader), old(p.data)) && p.data == old(p.data)[20:]
+//@   ensures l4proto(old(p)) == 17 && len(old(p.data)) >= 8 ==> err == nil && isboxed(p.L4, UDPHeader) && udpAt(unbox(p.L4, UDPHeader), old(p.data)) && p.data == old(p.data)[8:]
+//@   ensures !(l4proto(old(p)) == 1 || l4proto(old(p)) == 58 || l4proto(old(p)) == 6 || l4proto(old(p)) == 17) ==> err != nil
+//@   ensures (l4proto(old(p)) == 1 || l4proto(old(p)) == 58) && len(old(p.data)) < 5 ==> err != nil
+//@   ensures l4proto(old(p)) == 6 && len(old(p.data)) < 20 ==> err != nil
+//@   ensures l4proto(old(p)) == 17 && len(old(p.data)) < 8 ==> err != nil
+//@   modifies p.L4, p.data
+
+// Ethernet II / 802.1Q: with a tag (TPID 0x8100) the frame needs 18 octets, the VLAN id word is
+// octets 14..15 and the real EtherType octets 16..17.
+//@ func (*Packet).decodeEthernet
+//@   ensures len(old(p.data)) < 14 ==> err != nil
+//@   ensures len(old(p.data)) >= 14 && old(p.data)[12]*256 + old(p.data)[13] != 33024 ==> err == nil && p.L2.EtherType == old(p.data)[12]*256 + old(p.data)[13] && p.L2.Vlan == 0
+//@       && p.L2.DstMAC == macText(old(p.data)[0], old(p.data)[1], old(p.data)[2], old(p.data)[3], old(p.data)[4], old(p.data)[5])
+//@       && p.L2.SrcMAC == macText(old(p.data)[6], old(p.data)[7], old(p.data)[8], old(p.data)[9], old(p.data)[10], old(p.data)[11])
+//@       && p.data == old(p.data)[14:]
+//@   ensures [tagged] len(old(p.data)) >= 18 && old(p.data)[12]*256 + old(p.data)[13] == 33024 && old(p.data)[16]*256 + old(p.data)[17] != 33024 ==> err == nil
+//@       && p.L2.EtherType == old(p.data)[16]*256 + old(p.data)[17] && p.L2.Vlan == old(p.data)[14]*256 + old(p.data)[15]
+//@       && p.L2.DstMAC == macText(old(p.data)[0], old(p.data)[1], old(p.data)[2], old(p.data)[3], old(p.data)[4], old(p.data)[5])
+//@       && p.L2.SrcMAC == macText(old(p.data)[6], old(p.data)[7], old(p.data)[8], old(p.data)[9], old(p.data)[10], old(p.data)[11])
+//@       && eqbytes(p.data, old(p.data)[18:])
+//@   ensures [shorttag] len(old(p.data)) >= 14 && len(old(p.data)) < 18 && old(p.data)[12]*256 + old(p.data)[13] == 33024 ==> err != nil
+//@   ensures p.L3 == old(p.L3) && p.L4 == old(p.L4)
+//@   modifies p.L2, p.data
+
+//@ func (*Packet).decodeEthernetHeader
+//@   ensures err == nil ==> (p.L2.EtherType == 2048 && isboxed(p.L3, IPv4Header)) || (p.L2.EtherType == 34525 && isboxed(p.L3, IPv6Header))
+//@   modifies p.L2, p.L3, p.L4, p.data
+
+//@ func (*Packet).Decoder
+//@   ensures result == p
+//@   ensures protocol != 1 && protocol != 11 && protocol != 12 ==> err != nil
+//@   ensures protocol == 11 && len(data) >= 20 && data[9] == 6 && len(data) >= 40 ==> err == nil && isboxed(p.L3, IPv4Header) && ipv4At(unbox(p.L3, IPv4Header), data)
+//@       && isboxed(p.L4, TCPHeader) && tcpAt(unbox(p.L4, TCPHeader), data[20:])
+//@   ensures protocol == 11 && len(data) >= 28 && data[9] == 17 ==> err == nil && isboxed(p.L3, IPv4Header) && ipv4At(unbox(p.L3, IPv4Header), data)
+//@       && isboxed(p.L4, UDPHeader) && udpAt(unbox(p.L4, UDPHeader), data[20:])
+//@   ensures protocol == 12 && len(data) >= 60 && data[6] == 6 ==> err == nil && isboxed(p.L3, IPv6Header) && ipv6At(unbox(p.L3, IPv6Header), data)
+//@       && isboxed(p.L4, TCPHeader) && tcpAt(unbox(p.L4, TCPHeader), data[40:])
+//@   modifies p
